@@ -1,6 +1,6 @@
 """C04 — operations addressed to one bucket never change any other bucket."""
 from ..rules_commit import check_no_rollback
-from ..rules_store import ddl_facts, forward_bucket, scope_memory, scope_peewee, scope_sqlite
+from ..rules_store import instance_state, ddl_facts, forward_bucket, scope_memory, scope_peewee, scope_sqlite
 
 
 def check(prog, rep):
@@ -18,6 +18,7 @@ def check(prog, rep):
         "OWN-IN/OWN-OUT (C01) exclude object sharing between two buckets' lists in MemoryStorage",
     ]
     rep.not_decided = ["nothing of substance beyond the trusted base"]
+    instance_state(prog, rep)
     scope_sqlite(prog, rep)
     scope_peewee(prog, rep)
     scope_memory(prog, rep)
